@@ -41,6 +41,13 @@ struct BlockNode<T> {
     start: AtomicUsize, // start index of the block
 }
 
+#[cfg(may_verif)]
+impl<T> Drop for BlockNode<T> {
+    fn drop(&mut self) {
+        crate::verif::free("SpmcBlock", self as *const Self);
+    }
+}
+
 /// we don't implement the block node Drop trait
 /// the queue is responsible to drop all the items
 /// and would call its get() method for the dropping
@@ -48,6 +55,20 @@ impl<T> BlockNode<T> {
     /// create a new BlockNode with uninitialized data
     #[inline]
     fn new(index: usize) -> *mut BlockNode<T> {
+        #[cfg(may_verif)]
+        return crate::verif::alloc(
+            "SpmcBlock",
+            Box::into_raw(Box::new(BlockNode {
+                next: AtomicPtr::new(ptr::null_mut()),
+                used: AtomicUsize::new(BLOCK_SIZE),
+                data: [Slot::UNINIT; BLOCK_SIZE],
+                start: AtomicUsize::new(index),
+            })),
+            0,
+            0,
+            0,
+        );
+        #[cfg(not(may_verif))]
         Box::into_raw(Box::new(BlockNode {
             next: AtomicPtr::new(ptr::null_mut()),
             used: AtomicUsize::new(BLOCK_SIZE),
